@@ -17,6 +17,11 @@
   SIB-runners        the sequential and the parallel runner both funnel every predicate through the same
                      check_predicate and the same finalize_check_predicate; finalize propagates the first
                      failure and, when estimating, stores each gas_used into the input.
+  DOM-signature-owner  Input::check_signature: for the three signed input kinds every Ok(()) is dominated by the
+                     "equal" side of `owner != recovered_address` (InputInvalidSignature on the other side), also on a
+                     recovery-cache hit; the recovered address is either cache[witness_index] or
+                     witnesses[witness_index].recover_witness(txhash, ..), and what is cached under witness_index is
+                     that recovered address.
 Not decided: signature recovery itself (C17), schedule independence of a user-supplied executor.
 """
 import re
@@ -35,6 +40,8 @@ def run(F, rep, tier, allfacts):
     rep.rule("DOM-bits", "Checks::{Signatures,Predicates} inserted only after the corresponding verification returned Ok; writers of checks_bitmask ⊆ reviewed set")
     rep.rule("DOM-check_predicate", "owner test before VM; declared gas used verbatim; Return(1) required; remaining gas must be 0")
     rep.rule("SIB-runners", "sequential and parallel runners share check_predicate and finalize_check_predicate")
+    rep.rule("DOM-signature-owner", "signed inputs: every Ok is dominated by owner == recovered address (cache hit included); cache keyed by witness index holds the recovered address")
+    signature_owner(F, rep)
 
     # ---------------- constructors
     for adt, allowed in ((CT + "Checked", {CT + "Checked::<Tx>::new"}), (CT + "Ready", {CT + "Checked::<Tx>::into_ready"})):
@@ -193,3 +200,66 @@ def run(F, rep, tier, allfacts):
         a = [describe(f2, args[0], depth=6) for i, c, args, *_ in calls(f2) if callee_matches(c, r"predicates::run_predicates$")]
         rep.check(len(a) == 1 and ("PredicateRunKind::" + kind) in a[0], "SIB-runners", nm + "->run_predicates(" + kind + ")", "%s:%s" % (f2["file"], f2["line"]),
                   "%s must run the predicates in %s mode; found %s" % (nm, kind, a))
+
+
+def signature_owner(F, rep):
+    from fvlib.core import bool_consumers
+    n, f = F.find(r"^fuel_tx::transaction::validity::<impl fuel_tx::transaction::types::input::Input>::check_signature$", ["fuel_tx"], one=True)
+    rep.saw(n)
+    cfg = CFG(f)
+    where = "%s:%s" % (f["file"], f["line"])
+    names = {k: v["name"] for k, v in enumerate(F.adt("fuel_tx::transaction::types::input::Input")["variants"])}
+    cmpc = [(i, callee_name(c).rsplit("::", 1)[-1], sorted(describe(f, a, depth=6) for a in args)) for i, c, args, *_ in calls(f)
+            if callee_matches(c, r"PartialEq.*::(ne|eq)$") and any(describe(f, a, depth=6) == "var:owner" for a in args)]
+    ok = len(cmpc) == 1 and cmpc[0][2] == ["var:owner", "var:recovered_address"]
+    if not ok:
+        rep.bad("DOM-signature-owner", "check_signature:owner-compared-with-recovered-address", where, "comparisons involving owner: %s" % cmpc)
+        return
+    bc = bool_consumers(f, cmpc[0][0])
+    if len(bc) != 1:
+        rep.bad("DOM-signature-owner", "check_signature:comparison-branched-on", where, "the owner comparison result is not branched on exactly once")
+        return
+    _, t_, f_ = bc[0]
+    eq_side, ne_side = (f_, t_) if cmpc[0][1] == "ne" else (t_, f_)
+    errb = agg_blocks(f, r"ValidityError$", "InputInvalidSignature")
+    rep.check(bool(errb) and all(b in cfg.reachable_incl(ne_side) and b not in cfg.reachable_incl(eq_side) for b in errb), "DOM-signature-owner", "mismatch->InputInvalidSignature", where,
+              "InputInvalidSignature must be returned exactly on the owner != recovered side")
+    t0 = f["bbs"][0]["t"]
+    signed = {"CoinSigned", "MessageCoinSigned", "MessageDataSigned"}
+    oks = [i for i, j, p, rv, line in assignments(f) if p == [0] and rv[0] == "agg" and rv[2] == "Ok"]
+    bad = []
+    if t0[0] != "switch":
+        bad.append("no kind switch")
+    else:
+        arms = {names.get(v, str(v)): tg for v, tg in t0[2]}
+        rep.check(signed <= set(arms), "DOM-signature-owner", "signed-kinds-have-arms", where, "arms %s" % sorted(arms))
+        for k in sorted(signed & set(arms)):
+            for b in oks:
+                if b in cfg.reachable_incl(arms[k]) and not (cfg.dominates(eq_side, b) or b == eq_side):
+                    bad.append((k, "bb%d" % b))
+    rep.check(not bad, "DOM-signature-owner", "signed:every-Ok-after-owner==recovered", where,
+              "a signed input can be accepted on a path that does not pass the owner == recovered-address test: %s" % bad)
+    # provenance of recovered_address
+    srcs = set()
+    for i, j, p, rv, line in assignments(f):
+        if len(p) == 1 and dbg_name_(f, p[0]) == "recovered_address" and rv[0] == "use":
+            d = describe(f, rv[1], depth=8)
+            srcs.add("cache.get" if re.search(r"call:get\(arg:recovery_cache@Some\.0,var:witness_index\)", d) else ("recover" if re.search(r"call:\{closure#0\}", d) else d))
+    rep.check(srcs == {"cache.get", "recover"}, "DOM-signature-owner", "recovered_address∈{cache[witness_index],recover_address()}", where, "sources of recovered_address: %s" % sorted(srcs))
+    ins = [[describe(f, a, depth=8) for a in args] for i, c, args, *_ in calls(f) if callee_matches(c, r"HashMap::<K, V, S, A>::insert$")]
+    rep.check(len(ins) == 1 and ins[0][1] == "var:witness_index" and "closure#0" in ins[0][2], "DOM-signature-owner", "cache[witness_index]:=recovered", where, "cache inserts %s" % ins)
+    cl = F.find(re.escape(n) + r"::\{closure#0\}$", ["fuel_tx"], required=False)
+    okc = False
+    for cn, cf in cl:
+        cs = [(callee_name(c).rsplit("::", 1)[-1], [describe(cf, a, depth=8) for a in args]) for i, c, args, *_ in calls(cf)]
+        g = [a for nm, a in cs if nm == "get"]
+        r = [a for nm, a in cs if nm == "recover_witness"]
+        okc = len(g) == 1 and g[0] == ["arg:#1.0", "arg:#1.1"] and len(r) == 1 and r[0][1] == "arg:#1.3"
+    cap = [describe(f, a, depth=4) for i, c, args, *_ in calls(f) if "closure#0}" in callee_name(c) for a in args[:1]]
+    rep.check(okc and cap and all(c_ == "agg:{closure#0}(arg:witnesses,var:witness_index,arg:index,arg:txhash)" for c_ in cap), "DOM-signature-owner", "recover=witnesses[witness_index].recover_witness(txhash)", where,
+              "closure captures %s" % cap)
+
+
+def dbg_name_(f, l):
+    from fvlib.core import dbg_name
+    return dbg_name(f, l)
